@@ -75,6 +75,16 @@ impl Layout {
         &self.start_to_hole
     }
 
+    #[cfg(feature = "verif_hooks")]
+    pub fn pending_holes(&self) -> &BTreeMap<usize, usize> {
+        &self.pending_holes
+    }
+
+    #[cfg(feature = "verif_hooks")]
+    pub fn start_to_reserved(&self) -> &BTreeMap<usize, usize> {
+        &self.start_to_reserved
+    }
+
     pub fn len(&self) -> usize {
         let mut len = 0;
         if let Some((start, reserved)) = self.get_last_reserved() {
